@@ -67,7 +67,7 @@ func genDepsProgram(r *hk.Rand) depsProgram {
 	add := func(s *c05.Spec) int { s.ID = len(specs) + 1; specs = append(specs, s); return s.ID }
 	size := map[int]int{}
 	key := add(&c05.Spec{Kind: "key", Key: r.Intn(2)})
-	nonce := int(r.U64() % 1000000)
+	nonce := int(r.U64() % 900) // chunk salts below 1000: plain (non-GIF) contents, distinct per salt
 	var chunks []int
 	for i := 0; i < 3+r.Intn(4); i++ {
 		sz := 5 + r.Intn(120)
